@@ -594,8 +594,12 @@ class Ctx:
             M_ = mag(A_, fx_) if mag is not None else abs(E)
             rp.case.update({'exact': '%d/%d' % (E.numerator, E.denominator), 'magnitude': '%d/%d' % (M_.numerator, M_.denominator),
                             'K': K, 'out_index': out_index})
-            txt = 'inputs=%s impl=%s exact=%.17g error=%.4g ulps (allowed %s)' % ([core.hexf(v) for v in c], core.hexf(got) if np.isfinite(got) else repr(got),
-                                                                               float(E), e, K)
+            try:
+                Ef = '%.17g' % float(E)
+            except OverflowError:
+                Ef = '%d/%d' % (E.numerator, E.denominator) if E.denominator < 10 ** 6 and abs(E.numerator) < 10 ** 40 else 'about 2^%d' % (abs(E.numerator).bit_length() - E.denominator.bit_length())
+            txt = 'inputs=%s impl=%s exact=%s error=%.4g ulps (allowed %s)' % ([core.hexf(v) for v in c], core.hexf(got) if np.isfinite(got) else repr(got),
+                                                                             Ef, e, K)
             return (e > K if K else e > 0), txt
         rp.case = {'kind': 'ulp', 'impl': w.name}
         return rp
